@@ -271,18 +271,18 @@ def h_fanout(c, roles, carrier, session=True):
             return
         # membership change between the requests
         roles = list(roles)
-        changes = ['none', 'join'] + [f'leave{i}' for i, r in enumerate(roles) if r == 'child'] \
+        changes = ['none', 'join', 'join_relayed'] + [f'leave{i}' for i, r in enumerate(roles) if r == 'child'] \
             + [f'closing{i}' for i, r in enumerate(roles) if r == 'child']
         ch = c.pick(changes, 'change')
-        if ch == 'join':
+        if ch in ('join', 'join_relayed'):
             u = tok(c, 'u_join', 1, 3)      # may be a user that already is a child on another connection
-            nc = w.new_peer_conn(u, incoming=True)
             w.dn._accept_children, w.dn._max_children = True, 10
-            w.ev_peer_initialized(nc, requested=False)
+            # through the real paths: it dials our listening port (accept) / it asks through the server and we dial it
+            nc, _ = w.accept_incoming(u) if ch == 'join' else w.connect_to_peer(u)
             i = len(roles)
             conns[i] = nc
-            # whether it is admitted is C13's business; from the admission on it is a child until its connection closes
-            roles.append('child' if any(p.connection is nc for p in w.dn.children) else 'cand')
+            # acceptance on, limit far away, nobody proposed as potential parent: it is a child until its connection closes
+            roles.append('child')
             # the new child was told our position; those frames are not search traffic
         elif ch.startswith('leave'):
             i = int(ch[5:])
@@ -340,7 +340,7 @@ def h_fault(c, roles, carrier, fault):
         w.cleanup()
 
 
-def h_accept(c, roles, carrier, stall):
+def h_accept(c, roles, carrier, stall, path='accept'):
     """a child is admitted through the real accept path (ListeningConnection.accept -> Network.on_peer_accepted ->
     PeerInitializedEvent -> _add_child); the connection state is whatever the real code sets (UNINITIALIZED until the
     accept callback returns).  The callback is still suspended - stall = 'socket' / 'socket_root': the child's socket
@@ -361,14 +361,25 @@ def h_accept(c, roles, carrier, stall):
             w.extra_listener = slow_listener        # the bus only keeps weak references
             w.bus.register(PeerInitializedEvent, slow_listener)
         u = tok(c, 'u_new', 1, 3)
-        nc, task = w.accept_incoming(u, hang_from={'socket': 1, 'socket_root': 2}.get(stall, 0))
+        hang = {'socket': 1, 'socket_root': 2}.get(stall, 0)
+        if path == 'accept':
+            nc, task = w.accept_incoming(u, hang_from=hang)
+        else:
+            # server-relayed: the real Network._handle_connect_to_peer dials the peer, sends PeerPierceFirewall and emits
+            # PeerInitializedEvent(requested=False) for a connection whose `incoming` flag is False
+            nc, task = w.connect_to_peer(u, hang_from=hang)
+            if nc.incoming:
+                raise symex.HarnessError('relayed connection is flagged incoming')
         i = len(roles)
         conns[i] = nc
-        roles.append('child' if any(p.connection is nc for p in w.dn.children) else 'cand')
-        c.reach('accept_suspended' if not task.done() else 'accept_finished')
-        if roles[i] == 'child' and not task.done():
+        # acceptance is on, the limit is far away, nobody was proposed as potential parent: a peer that connects to us
+        # (either way) is a child from here on - by the reference, whatever the code's children list says
+        roles.append('child')
+        suspended = task is not None and not task.done()
+        c.reach('accept_suspended' if suspended else 'accept_finished')
+        if suspended:
             c.reach('child_while_accepting')
-            if nc.state is ConnectionState.CONNECTED:
+            if path == 'accept' and nc.state is ConnectionState.CONNECTED:
                 raise symex.HarnessError('accepted connection CONNECTED before the accept callback returned')
 
         def resume():
@@ -376,11 +387,12 @@ def h_accept(c, roles, carrier, stall):
             nc.fake_writer.release()
             if gate is not None and not gate.done():
                 w.loop.call(gate.set_result, None)
-        first = one_request(c, w, sm, shares, fs, conns, roles, carrier, '', after_deliver=resume, sig_extra=['accepting_' + stall])
+        first = one_request(c, w, sm, shares, fs, conns, roles, carrier, '', after_deliver=resume,
+                            sig_extra=[('accepting_' if path == 'accept' else 'relayed_') + stall])
         if first is False:
             w.cleanup()
             return
-        c.check(task.done() and nc.state is ConnectionState.CONNECTED, 'accept_completes', sig=[stall])
+        c.check((task is None or task.done()) and nc.state is ConnectionState.CONNECTED, 'accept_completes', sig=[path, stall])
         one_request(c, w, sm, shares, fs, conns, roles, carrier, '_2', fixed_sender=None if first is True else first,
                     sig_extra=['accepted'])
         w.cleanup()
@@ -405,7 +417,8 @@ FUNCS = [DistributedNetwork._on_server_search_request, DistributedNetwork._on_di
          SearchManager._on_message_received, convert_items_to_file_data, convert_item_to_file_data,
          DataConnection.queue_message, DataConnection.queue_messages, DataConnection.send_message, DataConnection._send,
          DataConnection.disconnect, Network.on_message_received, Network.on_state_changed, Network.on_peer_accepted,
-         Network._finalize_peer_connection, ListeningConnection.accept, DataConnection.receive_message_object]
+         Network._finalize_peer_connection, ListeningConnection.accept, DataConnection.receive_message_object,
+         Network._on_connect_to_peer, Network._handle_connect_to_peer, DataConnection.connect]
 
 META = {
     'level': 'other',
@@ -425,6 +438,8 @@ META = {
               'shares.utils.os.path.getsize -> harness table of symbolic sizes (both modes: there are no files)',
               'UploadInfoProvider -> constant stub', 'Network.send_peer_messages -> recorder (the reply would open a P connection)',
               'fault harness: FakeWriter.write / drain raise ConnectionResetError once, or drain waits until released (environment faults, kept in replay)',
+              'server-relayed admission: the real Network._on_connect_to_peer / _handle_connect_to_peer / DataConnection.connect run; only asyncio.open_connection '
+              '(-> FakeReader/FakeWriter) and settings.debug.ip_overrides (-> "nothing configured") are replaced',
               'accept harness: the new child comes in through the real ListeningConnection.accept / Network.on_peer_accepted on a FakeReader that delivers the PeerInit bytes '
               '(symbolic runs: decode_message_data of that connection returns the PeerInit object carrying the name token); its socket stalls, or an extra PeerInitializedEvent listener waits',
               'Network built with object.__new__ (see engine/fakes_dist.py)', 'StreamWriter -> recording FakeWriter; wait_closed() of a "closing" child does not return',
@@ -432,7 +447,7 @@ META = {
               'logging disabled', 'asyncio loop -> engine.vloop.VLoop'],
     'data_variables': ['user name token of every child connection incl. a joining one (3 values; two child connections may belong to the same user)', 'ticket (uint32)', 'unknown (uint32)', 'distributed_code (0..255)', 'asker name token (3 values incl. own name)',
                        'query token (4 values)', 'file size of every result (uint64)'],
-    'discriminants': ['accept harness: what keeps the accept callback suspended (child socket at the level / root frame, another listener)', 'fault harness: which child socket fails (write / drain error) or stalls, which child closes meanwhile', 'carrier (3)', 'role of each of 4 peers (absent/candidate/child/parent/closing child/closed child)', 'sender of a distributed carrier',
+    'discriminants': ['how a joining child reaches us: real accept path / real server-relayed path (ConnectToPeer, connection.incoming False)', 'accept harness: what keeps the accept callback suspended (child socket at the level / root frame, another listener)', 'fault harness: which child socket fails (write / drain error) or stalls, which child closes meanwhile', 'carrier (3)', 'role of each of 4 peers (absent/candidate/child/parent/closing child/closed child)', 'sender of a distributed carrier',
                       'number of visible / locked matches (0..2 each)', 'membership change between two requests (none/join/leave/closing)', 'session present'],
     'bounds': {'quick': {'peers': 4, 'shapes': 'representative shapes with 0..3 children', 'requests': 2},
                'thorough': {'peers': 4, 'shapes': 'every multiset of roles with at most one parent, in two list orders', 'requests': 2}},
@@ -497,8 +512,10 @@ def jobs(tier):
             for stall in ('socket', 'socket_root', 'listener'):
                 if stall == 'socket_root' and 'parent' not in shape:
                     continue        # a root frame is only sent at a level other than 0
-                out.append({'harness': 'accept', 'fn': h_accept, 'params': {'roles': shape, 'carrier': carrier, 'stall': stall},
-                            'requires': ['request_' + carrier, 'child_while_accepting', 'forwarded']})
+                for path in ('accept', 'relayed'):
+                    out.append({'harness': 'accept', 'fn': h_accept,
+                                'params': {'roles': shape, 'carrier': carrier, 'stall': stall, 'path': path},
+                                'requires': ['request_' + carrier, 'child_while_accepting', 'forwarded']})
     for carrier in CARRIERS:
         out.append({'harness': 'answer', 'fn': h_answer, 'params': {'carrier': carrier, 'session': True},
                     'requires': ['request_' + carrier, 'answer_expected', 'no_answer_expected']})
